@@ -280,9 +280,36 @@ func indentText(s string) string {
 // runSlot executes slot k's share (indices k, k+W, ...) in worker processes,
 // restarting after a worker death with the fatal run skipped.
 func (m *master) runSlot(k int) {
+	if !m.d.Info().Race {
+		m.runShare(k, k, m.n)
+		return
+	}
+	// Race drivers look for unsynchronised process-wide state, which earlier
+	// runs of the same process may have warmed up (a memo that is only read
+	// once it is filled races on a cold start only): the share is executed in
+	// segments, each in a fresh process.
+	seg := raceSegment * m.o.Workers
+	for from := k; from < m.n; from += seg {
+		to := from + seg
+		if to > m.n {
+			to = m.n
+		}
+		if !m.runShare(k, from, to) {
+			return
+		}
+	}
+}
+
+// raceSegment is the number of runs a worker process of a Race driver
+// executes before it is replaced by a fresh one.
+const raceSegment = 20
+
+// runShare executes the runs from, from+W, ... below to of slot k; it returns
+// false if the slot had to be abandoned.
+func (m *master) runShare(k, from, to int) bool {
 	skip := map[int]bool{}
 	for attempt := 0; attempt < 6; attempt++ {
-		res := m.spawnWorker(k, m.n, m.o.Workers, m.every, skip, true, fmt.Sprintf("%s-w%d", m.d.ID(), k))
+		res := m.spawnWorker(from, to, m.o.Workers, m.every, skip, true, fmt.Sprintf("%s-w%d", m.d.ID(), k))
 		if res.done {
 			m.mu.Lock()
 			m.sums = append(m.sums, *res.sum)
@@ -295,13 +322,13 @@ func (m *master) runSlot(k int) {
 				m.viol = append(m.viol, foundViolation{Run: v.Run, Outcome: v.Outcome, Case: c})
 			}
 			m.mu.Unlock()
-			return
+			return true
 		}
 		if res.watchdog {
 			m.mu.Lock()
 			m.trouble = append(m.trouble, fmt.Sprintf("watchdog: worker %d made no progress after run %d", k, res.lastRun))
 			m.mu.Unlock()
-			return
+			return false
 		}
 		// The worker died.  Pinpoint and confirm in a fresh process.
 		at := res.lastRun
@@ -309,18 +336,18 @@ func (m *master) runSlot(k int) {
 			m.mu.Lock()
 			m.trouble = append(m.trouble, fmt.Sprintf("worker %d died before its first run: %s", k, tail(res.stderr, 800)))
 			m.mu.Unlock()
-			return
+			return false
 		}
-		to := at + m.every*m.o.Workers
-		if to > m.n {
-			to = m.n
+		pto := at + m.every*m.o.Workers
+		if pto > to {
+			pto = to
 		}
-		pin := m.spawnWorkerRange(at, to, m.o.Workers, 1, skip, false, "")
+		pin := m.spawnWorkerRange(at, pto, m.o.Workers, 1, skip, false, "")
 		if pin.done {
 			m.mu.Lock()
 			m.trouble = append(m.trouble, fmt.Sprintf("worker %d died near run %d but the death did not reproduce in a fresh process: %s", k, at, tail(res.stderr, 800)))
 			m.mu.Unlock()
-			return
+			return false
 		}
 		j := pin.lastRun
 		class, culprits := classifyDeath(pin.stderr)
@@ -334,6 +361,7 @@ func (m *master) runSlot(k int) {
 	m.mu.Lock()
 	m.trouble = append(m.trouble, fmt.Sprintf("worker %d: too many process deaths, share abandoned", k))
 	m.mu.Unlock()
+	return false
 }
 
 type workerResult struct {
